@@ -613,6 +613,10 @@ func poolsByNamespace(pools map[string]*Pool) map[string][]string {
 			poolsForNamespace[namespace] = append(poolsForNamespace[namespace], pool.Name)
 		}
 	}
+	// pools is a map: sort so that equal configurations compare equal.
+	for namespace := range poolsForNamespace {
+		sort.Strings(poolsForNamespace[namespace])
+	}
 	return poolsForNamespace
 }
 
